@@ -18,6 +18,8 @@ import Golib.Proof.C17Utf8Valid
 import Golib.Findings.C17
 import Golib.Proof.C17Int64
 import Golib.Model.C17Large
+import Golib.Proof.C17CaseB
+import Golib.Proof.C17Fast
 
 namespace Golib.C17
 open Golib.Utf8
@@ -275,42 +277,61 @@ theorem c17_snake_camel_ascii (x : List Nat) (firstUp : Bool) (h : ∀ b ∈ x, 
 example : snakeSpec [95, 95, 97, 95, 49, 95, 98] true false = [95, 65, 49, 66] ∧
     camelSpec [65, 98, 67, 68] false = [97, 98, 95, 99, 95, 100] := by decide
 
-/-- The linear-time evaluators of the LARGE stream (`Golib/Model/C17Large.lean`, used by the
-oracle for subjects of 1 000 – 100 000 runes) compute exactly what the cursor models compute:
-for every valid UTF-8 subject `s` (decoded once into `runes s`), every valid mask and all
-non-negative arguments; and for every ASCII subject of the case converters. -/
-theorem c17_large_eq_model (s m : List Nat) (hs : valid s = true) (hm : valid m = true)
-    (a b : Nat) (p : Int → Bool) (fu : Bool) :
-    sub s a b = some (subL (runes s) a b) ∧
-    sub s a (-1) = some (subL (runes s) a (-1)) ∧
-    mask s m a b = some (maskL s (runes s) (runes m) a b) ∧
-    rev s = some (revL (runes s)) ∧
-    removeRunes s p = some (removeL (runes s) p) ∧
-    ((∀ x ∈ s, x < 0x80) →
-      snakeToCamel s fu = some (snakeL s fu false) ∧ camelToSnake s = some (camelL s false)) := by
-  obtain ⟨hv, he⟩ := valid_eq_encode s hs
-  obtain ⟨hvm, hem⟩ := valid_eq_encode m hm
-  have sn : ∀ (t : List Nat) (f q : Bool), snakeL t f q = snakeSpec t f q := by
-    intro t; induction t with
-    | nil => intro f q; cases f <;> rfl
-    | cons x t ih => intro f q; cases f <;> simp [snakeL, snakeSpec, ih]
-  have cm : ∀ (t : List Nat) (q : Bool), camelL t q = camelSpec t q := by
-    intro t; induction t with
-    | nil => intro q; rfl
-    | cons x t ih => intro q; simp [camelL, camelSpec, ih]
-  refine ⟨?_, ?_, ?_, ?_, ?_, fun h => ?_⟩
-  · conv => lhs; rw [← he]
-    rw [(c17_sub (runes s) hv a).1 b]; simp [subL]
-  · conv => lhs; rw [← he]
-    rw [(c17_sub (runes s) hv a).2]; simp [subL]
-  · conv => lhs; rw [← he, ← hem]
-    rw [c17_mask (runes s) (runes m) hv hvm a b]
-    simp only [maskL, maskRunesL, maskRunes, he]
-  · conv => lhs; rw [← he]
-    rw [c17_rev (runes s) hv]; rfl
-  · conv => lhs; rw [← he]
-    rw [c17_removeRunes (runes s) hv p]; rfl
-  · rw [sn, cm]; exact c17_snake_camel_ascii s fu h
+/-- `SnakeToCamelCase` on ARBITRARY byte strings (valid UTF-8 or not): the cursor model equals
+the byte-level specification `snakeB` (Model/C17Large.lean) — bytes `< 0x80` follow the ASCII
+rules of `c17_snake_camel_ascii`; at any other byte the function skips
+`utf8.DecodeRuneInString`'s size (1 for an invalid byte), copies those bytes verbatim and
+clears `firstUp`. -/
+theorem c17_snake_spec (x : List Nat) (firstUp : Bool) :
+    snakeToCamel x firstUp = some (snakeB x.length x firstUp false) :=
+  snakeToCamel_bytes x firstUp
+
+/-- `CamelCaseToSnake` on arbitrary byte strings: ASCII capitals are lower-cased and preceded by
+`_` (except at byte 0); every non-ASCII sequence is copied verbatim. -/
+theorem c17_camel_spec (x : List Nat) : camelToSnake x = some (camelB x.length x false) :=
+  camelToSnake_bytes x
+
+/-- What that means on valid UTF-8 (`encode rs`): a non-ASCII rune — letter of either case,
+digit of another script, symbol — is never changed and never re-cased, and after it (as after
+any byte that is not `_`) nothing is upper-cased; ASCII digits and capitals are copied. -/
+theorem c17_snake_camel_nonascii (r : Int) (hr : validRune r = true) (h80 : 0x80 ≤ r)
+    (rest : List Nat) (n : Nat) (hn : (encodeRune r ++ rest).length ≤ n) (fu pos : Bool) :
+    snakeB n (encodeRune r ++ rest) fu pos = encodeRune r ++ snakeB (n - 1) rest false true ∧
+    camelB n (encodeRune r ++ rest) pos = encodeRune r ++ camelB (n - 1) rest true := by
+  obtain ⟨b, t, hbt, h1, h2⟩ := encodeRune_head r hr
+  have hb : ¬ b < 0x80 := by
+    intro hb
+    have := (h1 hb).2
+    omega
+  have hdec := decodeRune_encodeRune r rest hr
+  rw [hbt] at hdec hn ⊢
+  obtain ⟨m, rfl⟩ : ∃ m, n = m + 1 := ⟨n - 1, by simp at hn; omega⟩
+  simp only [List.cons_append] at hdec hn ⊢
+  have htk : (b :: (t ++ rest)).take (t.length + 1) = b :: t := by simp
+  have hdr : (b :: (t ++ rest)).drop (t.length + 1) = rest := by simp
+  have hl : (b :: t).length = t.length + 1 := rfl
+  constructor
+  · rw [snakeB]; simp only [hb, if_false, hdec, hl, htk, hdr]; simp
+  · rw [camelB]; simp only [hb, if_false, hdec, hl, htk, hdr]; simp
+
+/-- The linear-time evaluators of the LARGE and HISTORY streams (`Golib/Model/C17Large.lean`)
+compute exactly what the cursor models compute, for EVERY byte string — valid UTF-8 or not —
+every mask and every integer argument.  `subF`/`maskF` are the cursor loops with the remaining
+suffix threaded through (O(1) per step); `revF s = string(reverse([]rune(s)))`; `removeF` =
+bytes before the first selected rune verbatim, the remaining unselected runes re-encoded. -/
+theorem c17_large_eq_model (s m : List Nat) (a b : Int) (p : Int → Bool) :
+    sub s a b = subF s a b ∧ mask s m a b = maskF s m a b ∧
+    rev s = some (revF s) ∧ removeRunes s p = some (removeF s p) :=
+  ⟨(subF_eq s a b).symm, (maskF_eq s m a b).symm, rev_all s, removeRunes_all s p⟩
+
+/-- Non-vacuity: invalid subjects — `Rev("a\\xffb")`; `RemoveRunes("\\xffab\\xff", b)` keeps the
+first invalid byte verbatim and re-encodes the second; `SnakeToCamelCase("a_é_b", false)` =
+`aéB` (the `_` before `b` upper-cases it), `SnakeToCamelCase("a_éb", false)` = `aéb` (after `_é`
+nothing is upper-cased). -/
+example : revF [97, 255, 98] = [98, 239, 191, 189, 97] ∧
+    removeF [255, 97, 98, 255] (fun r => r == 98) = [255, 97, 239, 191, 189] ∧
+    snakeB 7 [97, 95, 195, 169, 95, 98] false false = [97, 195, 169, 66] ∧
+    snakeB 5 [97, 95, 195, 169, 98] false false = [97, 195, 169, 98] := by decide
 
 /-- Non-vacuity: `foo_bar1` is in the grammar; `FooBar1` / `fooBar1` are the intermediate values. -/
 example : isSnakeIdent [102, 111, 111, 95, 98, 97, 114, 49] = true := by decide
